@@ -235,10 +235,13 @@ def r4_global_state(ctx):
     else:
         ctx.bad("init|shape", init.where(), "arena::init no longer iterates S_SCRATCH creating or resetting every element to offset 0 (loop=%s new=%d reset=%d)" % (has_loop, len(news), len(resets)))
     # S_SCRATCH is touched only by init and scratch_arena
+    from ..mir import statics_used
     users = set()
     for fn in ctx.lib.fns.values():
-        if "S_SCRATCH" in str(fn.m["blocks"]):
+        if "arena::scratch::S_SCRATCH" in statics_used(fn):
             users.add(parent_fn(fn.id))
+    if not users:
+        ctx.bad("statics|users|none-seen", "src/arena/scratch.rs", "no body is seen using S_SCRATCH: the who-may-touch rule has nothing to check (exporter change?)")
     allowed = {"arena::scratch::init", "arena::scratch::scratch_arena"}
     if users <= allowed:
         ctx.ok("statics|users", "src/arena/scratch.rs", "S_SCRATCH used only by %s" % sorted(x.split("::")[-1] for x in users))
